@@ -25,8 +25,8 @@ def nontrivial(req, obs):
 
 SPEC = {
     "id": "C07",
-    "gens": ["HashSites", "EnumRange"],
-    "lean_modules": ["RsslVerif.Thm.C07", "RsslVerif.Lemmas.EnumRange", "RsslVerif.Thm.C02", "RsslVerif.Thm.C15"],
+    "gens": ["HashSites", "EnumRange", "GlobalState", "Reserved"],
+    "lean_modules": ["RsslVerif.Thm.C07", "RsslVerif.Lemmas.EnumRange", "RsslVerif.Model.History", "RsslVerif.Thm.C02", "RsslVerif.Thm.C15"],
     "theorems": [T + n for n in [
         "sort_perm_invariant", "collectSort_perm_invariant", "sortBy_key_perm_invariant",
         "lookup_perm_invariant", "fold_perm_invariant", "firstFailure_ok_perm_invariant", "firstFailure_perm_invariant",
@@ -35,7 +35,11 @@ SPEC = {
         "scoped_declarations_unobserved", "no_other_nondeterminism",
         # worked example of a commutative fold: Context::end_enum transcribed (Model/EnumRange.lean)
         "end_enum_shape_as_modelled", "end_enum_type_or_error_order_independent", "end_enum_panics_order_independent",
-        "gather_panic_message_order_dependent", "end_enum_order_independent", "blame_first_order_dependent"]] + [
+        "gather_panic_message_order_dependent", "end_enum_order_independent", "blame_first_order_dependent",
+        # history independence: no process-wide state (tie: Gen.GlobalState), and what that buys (Model/History.lean)
+        "history_independent_of_stateless", "runSeq_eq_map_fresh", "history_independent_of_no_state",
+        "real_reserved_set_history_independent", "once_lock_history_dependent",
+        "no_process_wide_state", "no_ambient_inputs", "global_state_scan_not_empty"]] + [
         "RsslVerif.Lemmas.EnumRange.foldl_perm_of_invariant",
         # the two non-trivial sites are proved order independent over the models of the code itself
         "RsslVerif.Thm.C02.closure_order_independent",      # usage-analysis fixpoint (recurse) vs key iteration order
